@@ -58,6 +58,12 @@ Next ==
         /\ UNCHANGED <<frames, digs, groupers, gdigs, vdigs, bad, herr>>
         /\ tainted' = TRUE
         /\ stats' = [stats EXCEPT !.skipped = @ + 1]
+     ELSE IF e.race = 1 THEN                  \* C11: the race detector reported a data race during this batch
+        /\ bad' = bad \cup {<<e.scn, e.i, "race">>}
+        /\ tainted' = TRUE
+        /\ frames' = Fr /\ digs' = D /\ groupers' = Gr /\ gdigs' = GD /\ vdigs' = VD
+        /\ UNCHANGED herr
+        /\ stats' = [stats EXCEPT !.judged = @ + 1]
      ELSE IF e.pan = 1 THEN
         /\ bad' = bad \cup {<<e.scn, e.i, "panic">>}
         /\ tainted' = TRUE
